@@ -166,32 +166,76 @@ func hugeTightDCase(r *rand.Rand, sut string) DCase {
 	return DCase{WS: w, BS: b, SUT: sut, Ops: ops}
 }
 
-// longMatchDCase: single matches of 70 kB to 1 MiB with offsets that are no
-// powers of two (and some that are), on buffers that hold them.
-func longMatchDCase(r *rand.Rand, sut string) DCase {
+// longMatchDCase: single matches of 64 KiB to 1 MiB with offsets that are no
+// powers of two (and some that are). Half of the cases use a window of
+// 64-100 kB in a buffer 70-200 kB larger that is kept nearly full with a part
+// of it already read, so that the long match has to discard data first.
+// hostile > 0: that percentage of the sequences carries a literal run and an
+// offset of 0 or beyond the window.
+func longMatchDCase(r *rand.Rand, sut string, hostile int) DCase {
 	w := []int{1 << 20, 1 << 17, 200000}[r.Intn(3)]
 	b := 2*w + r.Intn(3)*r.Intn(w)
 	if r.Intn(3) == 0 {
 		b = 4 << 20
 	}
+	tight := r.Intn(2) == 0
+	if tight {
+		w = []int{1 << 16, 100000, 70001}[r.Intn(3)]
+		b = w + 70000 + r.Intn(130000)
+	}
 	offs := []int{1, 2, 3, 5, 7, 24, 1000, 40000, 65535, 65536, 65537, 100000, 4096, 3 * 4096}
 	var ops []DOp
-	ops = append(ops, DOp{K: "write", Data: genLits(r, 110000+r.Intn(1000))})
-	for len(ops) < 10 {
+	first := 110000 + r.Intn(1000)
+	if first > b {
+		first = b
+	}
+	ops = append(ops, DOp{K: "write", Data: genLits(r, first)})
+	buffered := first
+	for len(ops) < 12 {
 		o := offs[r.Intn(len(offs))]
+		if o > w || o > first {
+			o = 1 + r.Intn(100)
+		}
 		m := 65537 + r.Intn(b-w-65537)
 		if r.Intn(2) == 0 {
-			m = 65536 + r.Intn(70000)
+			m = 65536 + r.Intn(b-w-65536+1)
 		}
-		// (OK 0: absolute offset; it is valid: more than 110000 bytes are
-		// written and the window holds at least 131072)
+		// (OK 0: absolute offset; it is valid: the offsets are not larger
+		// than the window or than what has been written)
 		seq := DSeq{M: uint32(m), OK: 0, O: uint32(o)}
 		lit := genLits(r, r.Intn(40))
+		bad := r.Intn(100) < hostile
+		if bad {
+			if len(lit) == 0 {
+				lit = genLits(r, 1+r.Intn(8))
+			}
+			seq.O = uint32([]int{0, w + 1, w + len(lit) + 1, b, 1 << 31}[r.Intn(5)])
+		}
 		seq.L = uint32(len(lit))
 		if sut == "buffer" {
-			ops = append(ops, DOp{K: "read", N: b}, DOp{K: "write", Data: lit}, DOp{K: "match", Seqs: []DSeq{{M: seq.M, O: seq.O}}}, DOp{K: "read", N: b})
+			if tight && !bad {
+				// fill the buffer up, read a part of it
+				fill := b - buffered - r.Intn(1000)
+				if fill > 0 {
+					ops = append(ops, DOp{K: "write", Data: genLits(r, fill)})
+				}
+				// (enough that the match fits after the read bytes are
+				// discarded, not everything)
+				ops = append(ops, DOp{K: "read", N: m + len(lit) + r.Intn(b-w-m+1)})
+			} else {
+				ops = append(ops, DOp{K: "read", N: b})
+			}
+			if bad || r.Intn(2) == 0 {
+				ops = append(ops, DOp{K: "block", Data: lit, Seqs: []DSeq{seq}, Hostile: bad})
+			} else {
+				ops = append(ops, DOp{K: "write", Data: lit}, DOp{K: "match", Seqs: []DSeq{{M: seq.M, O: seq.O}}})
+			}
+			if !tight {
+				ops = append(ops, DOp{K: "read", N: b})
+			}
+			buffered = w // (at least)
 		} else {
-			ops = append(ops, DOp{K: "block", Data: lit, Seqs: []DSeq{seq}})
+			ops = append(ops, DOp{K: "block", Data: lit, Seqs: []DSeq{seq}, Hostile: bad})
 		}
 	}
 	if sut == "decoder" {
@@ -210,7 +254,7 @@ func scaleDCase(r *rand.Rand, class, sut string, idx int64, hostile int) (DCase,
 	case "hugetight":
 		return hugeTightDCase(r, sut), true
 	case "longmatch":
-		return longMatchDCase(r, sut), true
+		return longMatchDCase(r, sut, hostile), true
 	}
 	return DCase{}, false
 }
